@@ -140,7 +140,10 @@ impl<T: RealNumber, M: Matrix<T>> InteriorPointOptimizer<T, M> {
 
             for i in 0..p {
                 self.prb[i] = T::two() + self.d1[i];
-                self.prs[i] = self.prb[i] * self.d1[i] - self.d2[i].powi(2);
+                // prb * d1 - d2^2 = 2 * d1 + (d1^2 - d2^2), and d1^2 - d2^2 = (2 * q1 * q2 / t)^2 exactly: the
+                // difference of the squares cancels to zero when w is close to a bound (|d2| ~ d1), which made the
+                // preconditioner divide by zero
+                self.prs[i] = T::two() * self.d1[i] + (T::two() * q1[i] * q2[i] / t).powi(2);
             }
 
             let normg = grad.norm2();
@@ -174,6 +177,15 @@ impl<T: RealNumber, M: Matrix<T>> InteriorPointOptimizer<T, M> {
             // BACKTRACKING LINE SEARCH
             let phi = z.dot(&z) + lambda * u.sum() - Self::sumlogneg(&f) / t;
             s = T::one();
+            for i in 0..p {
+                let (a, b) = (dx.get(i, 0) - du.get(i, 0), -dx.get(i, 0) - du.get(i, 0));
+                if a > T::zero() {
+                    s = s.min(T::from_f64(0.99).unwrap() * (u.get(i, 0) - w.get(i, 0)) / a);
+                }
+                if b > T::zero() {
+                    s = s.min(T::from_f64(0.99).unwrap() * (u.get(i, 0) + w.get(i, 0)) / b);
+                }
+            }
             let gdx = grad.dot(&dxu);
 
             // backtracking: halve the step until the new point is strictly feasible and gives sufficient decrease.
